@@ -374,6 +374,12 @@ def handoff(check, prog):
             if t[0] == 'call' and t[1] == 'numpy.isscalar' and t[2] and \
                     t[2][0][0] == 'attr' and t[2][0][1] == subj_p:
                 return uniform
+            # the size guard of the hand-off, for a scatterer of valid size
+            if t[0] == 'cmp' and t[1] in ('>', '>=') and t[3] == num(0):
+                return True
+            if t[0] == 'cmp' and t[1] in ('<', '<=') and t[3] in (
+                    ('extref', 'numpy.inf'), ('extref', 'math.inf')):
+                return True
             return isinstance_value(prog, t, subj_p, C)
         leaf = select(vp, value_p)
         if C and prog.is_subclass(C, SPHERE):
@@ -435,6 +441,25 @@ def size_guards(check, prog, accepted):
                    len(sizes), 1, 'E3-size-guard', cname + ' sizes',
                    'the equal-volume radius and the aspect ratio are computed from '
                    'the scatterer\'s size attributes', prog.loc(q, prog.func(q)))
+        # the hand-off itself refuses what is not a positive, finite size (zero
+        # passes the constructors: a model's template scatterer is all zeros)
+        inv = [o for o in res.raises if 'InvalidScatterer' in show(o.value)]
+        positive = False
+        for o in inv:
+            for t, pol in o.cond:
+                hits = [x for x in subterms(t) if x[0] == 'cmp' and
+                        x[1] in ('>', '>=', '<', '<=') and x[3] == num(0)]
+                if hits and pol is False:
+                    positive = True      # raised when "0 < size" fails
+                if pol is True and any(x[1] in ('<', '<=') for x in hits):
+                    positive = True      # raised when "size <= 0" holds
+        check.require(positive, 'E3-size-guard', cname + ' hand-off',
+                      'Tmatrix._parse_args raises InvalidScatterer for a size that is '
+                      'not positive', prog.loc(q, prog.func(q)),
+                      fail_detail='no refusal in _parse_args compares the sizes with 0: '
+                      'Cylinder(d=0, h=0.5) ends the interpreter with a segmentation '
+                      'fault, Spheroid(r=(0, 0.5)) with a STOP, a NaN semi-axis '
+                      'likewise')
         owner, fdi = init_of(prog, C)
         if fdi is None:
             check.bad('E3-size-guard', cname, 'no constructor found', '')
